@@ -155,6 +155,10 @@ _Reset.active_low_signal = lambda self: None
 I.register_model(_Reset.is_async, lambda it, self: self.fields["f_async"])
 I.register_model(_Reset.active_high_signal, lambda it, self: self.fields["f_high"])
 I.register_model(_Reset.active_low_signal, lambda it, self: sym.Not(self.fields["f_high"]))
+# std.Reset.__bool__ is the Python value the reset SIGNAL has at elaboration time (its default): arbitrary, and it must not
+# decide anything -- whether a context HAS a reset is `reset is None`
+_Reset.__bool__ = lambda self: None
+I.register_model(_Reset.__bool__, lambda it, self: self.fields["f_elab"])
 # the parent's own polarity is arbitrary and must not matter: the derived reset has the REQUESTED polarity
 _Reset.is_active_low = lambda self: None
 _Reset.is_active_high = lambda self: None
@@ -233,7 +237,7 @@ for which, parent, requested, active_low in [(w, p, r, a) for w in ("or", "and")
     if True:
         if True:
             def mk_self(env, parent=parent):
-                r = SObj(_Reset, f_async=None, f_high=None, f_low=None) if parent else None
+                r = SObj(_Reset, f_async=None, f_high=None, f_low=None, f_elab=None) if parent else None
                 return SObj(SC.SequentialContext, _clk="CLK", _reset=r, _attributes={"a": 1}, _step_cond="STEP", _on_reset="ON_RESET", _comment=None, _capture_lazy=False)
 
             kw = {"expr": VAL(_cond_fn, "expr"), "active_low": VAL(active_low, repr(active_low))}
@@ -253,6 +257,7 @@ for which, parent, requested, active_low in [(w, p, r, a) for w in ("or", "and")
                     args[0].fields["_reset"].fields["f_async"] = ctx.fresh_bool("parent_async")
                     args[0].fields["_reset"].fields["f_high"] = ctx.fresh_bool("parent_active")
                     args[0].fields["_reset"].fields["f_low"] = ctx.fresh_bool("parent_declared_active_low")
+                    args[0].fields["_reset"].fields["f_elab"] = ctx.fresh_bool("parent_reset_signal_value_at_elaboration")
 
             c.setup = setup
             con.cases.append(c)
